@@ -27,6 +27,8 @@ pub enum WAct {
     RepairAll { r: u8 },
     Clean,
     Wait,
+    /// hostile datagram(s) of a catalogue class from reader-like peer r
+    Hostile { r: u8, cls: String },
 }
 
 #[derive(Clone, Debug, Serialize, Deserialize)]
@@ -215,6 +217,29 @@ impl WExec {
                 let d = self.rig.wait_completed();
                 out.push(json!({"ev":"Clean","hist":h,"done":d}));
             }
+            WAct::Hostile { r, cls } => {
+                let g = reader_guid(*r);
+                let mut prefix = [0u8; 12];
+                prefix.copy_from_slice(&g[0..12]);
+                let ctx = crate::hostile::Ctx { src_prefix: prefix, writer_eid: [WRITER_GUID[12], WRITER_GUID[13], WRITER_GUID[14], WRITER_GUID[15]], reader_eid: [g[12], g[13], g[14], g[15]], front: self.written.len() as i64, count: 5000 };
+                let dgs = crate::hostile::writer_datagrams(cls, &ctx);
+                let total_len: usize = dgs.iter().map(|d| d.len()).sum();
+                crate::util::live_event(&json!({"ev":"HostileBegin","cls":cls,"r":r,"_streamed":true}));
+                let rig = &mut self.rig;
+                let m = crate::measure::measure(|| {
+                    for d in &dgs {
+                        let _ = rig.receive(d);
+                    }
+                });
+                // repair timers the hostile datagram armed, and cleaning: time/memory counted as well
+                let m2 = crate::measure::measure(|| {
+                    for _ in 0..50 {
+                        let _ = rig.fire_repair_data(g);
+                    }
+                    rig.cache_clean();
+                });
+                out.push(json!({"ev":"Hostile","cls":cls,"r":r,"n":dgs.len(),"len":total_len,"panic":m.panic.is_some() || m2.panic.is_some(),"msg":m.panic.or(m2.panic).unwrap_or_default(),"us":(m.us + m2.us) as u64,"alloc":(m.alloc + m2.alloc) as u64,"died":"","hist":self.rig.history_sns(),"done":self.rig.wait_completed()}));
+            }
             WAct::Wait => {
                 self.rig.wait_for_acks();
                 let d = self.rig.wait_completed();
@@ -342,4 +367,40 @@ pub fn random_run(rng: &mut StdRng, n_events: usize) -> WRunSpec {
 pub fn random_specs(seed: u64, runs: usize, events: usize) -> Vec<WRunSpec> {
     let mut rng = StdRng::seed_from_u64(seed ^ 0x5157);
     (0..runs).map(|_| random_run(&mut rng, events)).collect()
+}
+
+/// C06 on the writer: readers 1 and 2 behave, peer 3 (matched in half of the runs) sends a hostile
+/// class; afterwards the valid readers are served and the history is cleaned as before.
+pub fn hostile_specs(seed: u64, runs: usize) -> Vec<WRunSpec> {
+    let mut rng = StdRng::seed_from_u64(seed ^ 0xC06C);
+    let classes = crate::hostile::writer_classes();
+    let mut out = vec![];
+    for k in 0..runs {
+        let cls = classes[k % classes.len()];
+        let matched = (k / classes.len()) % 2 == 0;
+        let mut acts = vec![WAct::Match { r: 1, kind: "rel".into() }];
+        if matched {
+            acts.push(WAct::Match { r: 3, kind: "rel".into() });
+        }
+        let n = rng.gen_range(1..8);
+        for _ in 0..n {
+            acts.push(WAct::Write { single: 0, big: rng.gen_bool(0.2) });
+        }
+        acts.push(WAct::Hostile { r: 3, cls: cls.to_string() });
+        if matched {
+            acts.push(WAct::Lose { r: 3 });
+        }
+        for _ in 0..rng.gen_range(1..5) {
+            acts.push(WAct::Write { single: 0, big: false });
+        }
+        let last = n as i64 + 4;
+        acts.push(WAct::AckNack { r: 1, base: 1, set: vec![1, 2] });
+        acts.push(WAct::RepairAll { r: 1 });
+        acts.push(WAct::AckNack { r: 1, base: last + 1, set: vec![] });
+        acts.push(WAct::Clean);
+        acts.push(WAct::Wait);
+        acts.push(WAct::HBTick);
+        out.push(WRunSpec { rel: true, tl: Some(true), hist: 2, frag: 64, acts });
+    }
+    out
 }
